@@ -81,8 +81,12 @@ def gen_history(rng, length, readonly_safe=False, valkeys=None, funcs=3):
             ops.append(["readold", f, a])
         elif r < 0.47:
             ops.append(["get", f, a])
-        elif r < 0.50:
+        elif r < 0.49:
             ops.append(["getmany", [[rng.randrange(funcs), rng.randrange(NARGS)] for _ in range(rng.randint(2, 5))]])
+        elif r < 0.50:
+            # are all of these memoized? (asked with a list or with a one-shot iterable: the interface takes any iterable)
+            ops.append(["ismem_all", [[rng.randrange(funcs), rng.randrange(NARGS)] for _ in range(rng.randint(1, 3))],
+                        rng.choice(["list", "generator"])])
         elif r < 0.58:
             ops.append(["ismem", f, a])
         elif r < 0.68:
@@ -180,6 +184,8 @@ class Model:
             return (op[1], op[2]) in self.d
         if k == "getmany":
             return [((f, a) if (f, a) in self.d else None) for f, a in op[1]]
+        if k == "ismem_all":
+            return all((f, a) in self.d for f, a in op[1])
         if k == "forget_call":
             self.d.pop((op[1], op[2]), None)
             return None
@@ -290,6 +296,9 @@ def apply_backend(backend, refs, vals, op, model_before=None):
             return ("value", v)
         if k == "ismem":
             return bool(backend.is_memoized(refs.refs[op[1]], refs.ah[op[1]][op[2]]))
+        if k == "ismem_all":
+            fws = [refs.fwa[f][a] for f, a in op[1]]
+            return bool(backend.is_all_memoized(fws if op[2] == "list" else (w for w in fws)))
         if k == "getmany":
             ms = backend.get_mementos([refs.fwah(f, a) for f, a in op[1]])
             return [None if m is None else [m.invocation_metadata.fn_reference_with_args.fn_reference.qualified_name,
